@@ -130,7 +130,9 @@ def unquoted_harness(ctx, cfg):
     kinds = {'inner-blank': [z3.Contains(v, z3.StringVal(' '))],
              'digit-leading': [z3.InRe(v, lexenc.rx(r'0[0-9]+[a-z][a-z0-9]*|[0-9]+\.[0-9]*0[a-z]+|\.[0-9]+[a-z]+'))],
              'plain': [z3.Not(z3.Contains(v, z3.StringVal(' '))), z3.InRe(v, lexenc.rx(r'[A-Za-z_/.%~!?;][A-Za-z_/.%~!?;0-9]*'))],
-             'boolean-word': [z3.InRe(v, lexenc.rx(r'(True|False|true|false)[a-z]?'))]}
+             'boolean-word': [z3.InRe(v, lexenc.rx(r'(True|False|true|false)[a-z]?'))],
+             'number-ending': [z3.InRe(v, lexenc.rx(r'[A-Za-z_/.%~!?;]+ ?( [0-9]+| [0-9]*\.[0-9]+| 0[0-9]+)+'))],
+             'number-inside': [z3.InRe(v, lexenc.rx(r'[A-Za-z_/.%~!?;]+ [0-9]+(\.[0-9]+)? [A-Za-z_/.%~!?;]+'))]}
     obs, groups, fails = [], {}, []
     ws, block = [], []
     for _ in range(cfg['n']):
@@ -166,8 +168,23 @@ def unquoted_harness(ctx, cfg):
 
 # ------------------------------------------------------------------ L3: abstract programs -> token streams -> real LRParser
 class Tok(object):
-    def __init__(self, type_, value, lineno, lexpos):
+    def __init__(self, type_, value, lineno, lexpos, lexeme=None, sep=' '):
         self.type, self.value, self.lineno, self.lexpos = type_, value, lineno, lexpos
+        self.lexeme, self.sep = lexeme, sep         # how the stub source text spells this token
+
+
+DEFAULT_LEXEME = {'COLON': ':', 'COMMA': ',', 'EQUAL': '=', 'LBRACK': '[', 'RBRACK': ']', 'LPAREN': '(', 'RPAREN': ')', 'INT': '41',
+                  'FLOAT': '4.5', 'ID': 'sub', 'PLAIN_STRING': '/sub', 'STRING': '"sub"'}
+
+
+def retext(toks):
+    """(tokens with consistent positions, the source text they claim to come from) for an edited token list"""
+    out, text = [], ''
+    for t in toks:
+        lx = t.lexeme if t.lexeme is not None else DEFAULT_LEXEME[t.type]
+        out.append(Tok(t.type, t.value, t.lineno, len(text), lx, t.sep))
+        text += lx + t.sep
+    return out, text
 
     def __repr__(self):
         return 'Tok(%s)' % self.type
@@ -206,8 +223,8 @@ class Gen(object):
         ln = SymNum(self.ctx.real('line%d' % i, integer=True), 'i')
         punct = {'COLON': ':', 'COMMA': ',', 'EQUAL': '=', 'LBRACK': '[', 'RBRACK': ']', 'LPAREN': '(', 'RPAREN': ')'}
         if lexeme is None:
-            lexeme = punct.get(type_, '<%s%d>' % (type_.lower(), i))
-        self.toks.append(Tok(type_, value if value is not None else punct[type_], ln, len(self.text)))
+            lexeme = punct.get(type_, {'INT': '%d' % (40 + i), 'FLOAT': '%d.5' % i}.get(type_, '<%s%d>' % (type_.lower(), i)))
+        self.toks.append(Tok(type_, value if value is not None else punct[type_], ln, len(self.text), lexeme, sep))
         self.text += lexeme + sep
         return ln
 
@@ -226,7 +243,7 @@ class Gen(object):
 
     def value(self, depth, tag):
         """-> (abstract value, line term of its first token)"""
-        kinds = ['int', 'float', 'string', 'word', 'text2', 'numtext']
+        kinds = ['int', 'float', 'string', 'word', 'text2', 'numtext', 'textnum']
         if depth == 0:
             kinds.append('colon-text')
         if depth < self.cfg['depth']:
@@ -257,6 +274,15 @@ class Gen(object):
             ln = self.emit('INT', nv, lexeme='007', sep=sep)
             self.emit('ID', b)
             return ('str', '007' + sep + b), ln
+        if k == 'textnum':
+            # unquoted text ENDING in a number (`Layer 2`, `v 1.50`): text as written, the number keeps its spelling
+            sep = ['', ' '][self.ctx.choice('sep.%s' % tag, 2)]
+            a = self.sym_str('lead')
+            num = self.ctx.choice('numtok.%s' % tag, 2)
+            lead = ['ID', 'PLAIN_STRING'][self.ctx.choice('leadtok.%s' % tag, 2)]
+            ln = self.emit(lead, a, lexeme='Layer', sep=sep)
+            self.emit(['INT', 'FLOAT'][num], self.sym_num('tailnum', not num), lexeme=['002', '1.50'][num])
+            return ('str', 'Layer' + sep + ['002', '1.50'][num]), ln
         if k == 'colon-text':
             sep = ['', ' '][self.ctx.choice('sep.%s' % tag, 2)]
             a, b = self.sym_str('ca'), self.sym_str('cb')
@@ -456,10 +482,11 @@ def tree_harness(ctx, cfg):
                     val = val if isinstance(val, SymNum) else SymNum(ctx.real('subn%d' % mi, integer=True), 'i')
                 else:
                     val = None
-                toks[i] = Tok(tt, val if val is not None else {'COLON': ':', 'COMMA': ',', 'EQUAL': '=', 'RBRACK': ']'}[tt], g.toks[i].lineno, i)
+                toks[i] = Tok(tt, val if val is not None else {'COLON': ':', 'COMMA': ',', 'EQUAL': '=', 'RBRACK': ']'}[tt], g.toks[i].lineno, 0)
             seq = [t.type for t in toks]
             want = recognise(seq)
-            oc2, _ = run_parser(toks, g.text)
+            toks, text2 = retext(toks)
+            oc2, _ = run_parser(toks, text2)
             lab = 'corruption %s@%d%s of %s: %s' % (how, i, '->' + tt if tt else '', ' '.join(types)[:60], oc2)
             if oc2.startswith('escaped'):
                 extra.append((lab + ' (only SyntaxError may be raised)', z3.BoolVal(False), 'corruption-escaped'))
@@ -494,27 +521,34 @@ def recognise(seq):
     PIECES = ('INT', 'FLOAT', 'PLAIN_STRING', 'ID')
 
     def plain():
+        """a run of pieces -> (number of pieces, does it contain a word piece)"""
         n = 0
-        last = None
+        word = False
         while peek() in PIECES:
-            last = peek()
+            word = word or peek() in ('PLAIN_STRING', 'ID')
             pos[0] += 1
             n += 1
-        return n, last
+        return n, word
 
     def text_or_number():
-        """number | permissive plain string; -> 'num' / 'text' / None"""
-        n, last = plain()
+        """number | permissive plain string; -> 'num' / 'text' / None.  Per the user guide unquoted text is any run of
+        characters other than  # : , = - + ( ) [ ]  -- so a run of pieces containing at least one word piece is text
+        wherever the numbers stand (`Layer 2`, `007 abc`, `a 1 b`); a single number is a number; a run of two or more
+        numbers and nothing else is neither (the guide does not say: left unjudged)"""
+        n, word = plain()
         if n == 0:
             return None
-        if last in ('INT', 'FLOAT'):
-            return 'num' if n == 1 else None
+        if not word:
+            if n == 1:
+                return 'num'
+            amb[0] = True
+            return None
         kind = 'text'
         while peek() == 'COLON':
             save = pos[0]
             pos[0] += 1
-            n2, last2 = plain()
-            if n2 == 0 or last2 in ('INT', 'FLOAT'):
+            n2, word2 = plain()
+            if n2 == 0 or not word2:
                 pos[0] = save
                 break
             kind = 'colon-text'
@@ -596,8 +630,12 @@ def recognise(seq):
 def recogniser_selftest():
     good = ['ID EQUAL ID LPAREN RPAREN', 'ID LPAREN ID EQUAL INT RPAREN', 'ID EQUAL ID LPAREN ID EQUAL LBRACK INT COMMA FLOAT COMMA RBRACK COMMA RPAREN',
             'ID EQUAL ID LPAREN ID EQUAL INT ID COLON PLAIN_STRING RPAREN', 'ID EQUAL ID LPAREN ID EQUAL LBRACK STRING COLON INT COMMA ID COLON STRING RBRACK RPAREN']
-    bad = ['ID EQUAL ID LPAREN', 'ID EQUAL LPAREN RPAREN', 'ID EQUAL ID LPAREN ID EQUAL RPAREN', 'ID EQUAL ID LPAREN ID EQUAL INT INT RPAREN', 'ID EQUAL ID LPAREN COMMA RPAREN', '']
-    return all(recognise(s.split()) is True for s in good) and all(recognise(s.split()) is False for s in bad)
+    good += ['ID EQUAL ID LPAREN ID EQUAL ID INT RPAREN', 'ID EQUAL ID LPAREN ID EQUAL PLAIN_STRING FLOAT INT COMMA RPAREN',
+             'ID EQUAL ID LPAREN ID EQUAL LBRACK STRING COLON ID INT RBRACK RPAREN']
+    bad = ['ID EQUAL ID LPAREN', 'ID EQUAL LPAREN RPAREN', 'ID EQUAL ID LPAREN ID EQUAL RPAREN', 'ID EQUAL ID LPAREN COMMA RPAREN', '']
+    unjudged = ['ID EQUAL ID LPAREN ID EQUAL INT INT RPAREN']
+    return all(recognise(s.split()) is True for s in good) and all(recognise(s.split()) is False for s in bad) \
+        and all(recognise(s.split()) is None for s in unjudged)
 
 
 # ------------------------------------------------------------------ LC: concrete renderings through the real Parser
@@ -643,7 +681,7 @@ def harness(ctx, cfg):
 
 def plan(tier, seed):
     jobs = [dict(kind='lemma', lexeme=n, maxlen=6 if tier == 'quick' else 8) for n in LEXEMES]
-    jobs += [dict(kind='unquoted', which=w, n=4 if tier == 'quick' else 8, maxlen=8) for w in ('plain', 'inner-blank', 'digit-leading', 'boolean-word')]
+    jobs += [dict(kind='unquoted', which=w, n=4 if tier == 'quick' else 8, maxlen=8) for w in ('plain', 'inner-blank', 'digit-leading', 'boolean-word', 'number-ending', 'number-inside')]
     jobs.append(dict(kind='render'))
     if tier == 'quick':
         jobs.append(dict(kind='tree', cmds=1, args=1, depth=1, width=2, v2=True, corrupt=False, max_paths=30000))
